@@ -31,6 +31,7 @@ var exprForms = []string{
 	`f("x#{a}y")`, `["#{a}", "b"]|join`, `("#{a}#{b}")`, `{"k": "#{a}"}.k`,
 	`not inx`, `a and not inx`, `z or inx`, `a in inlist`, `a not in inlist`, `a is not odd`, `s starts with withal`, `s ends with withal`, `not notz`, `isz is odd`, `a b-and android`, `android b-or z`,
 	`{"k": {"j": 1}}.k.j`, `[{"k": 1}, {"k": {}}]|length`, `f({"k": [1, {"j": 2}]})`,
+	`'C:\new\table' ~ "\\d+\n"`, `s == 'a\\b' ? "x\ty" : 'q\r'`,
 	`'' ~ "x#{a}"`, `f('', "#{a}")`, `"" ~ 'x' ~ "#{b}#{''}"`,
 	`arr.1.0`, `h.k.0`, `arr.0|up`, `arr.0 ~ a`, `arr.0[0]`, `arr.0.k`, `nest.0.k`, `nest.1.k|up`,
 	`a and -b`, `z or +a`, `not -z`, `a and not z`, `a in [-1, +3]`, `a is odd or -b`, `a - -b`, `a ~ -b`, `-a ** 2`, `(a) - (b)`, `f(-a, +b)`, `a == -b ? -a : +b`,
